@@ -1,5 +1,6 @@
 #!/bin/bash
 # seed_run.sh <patch> <tier> <check>... : apply a seeded change to /repo, run checks, undo it
+export VERIF_EVIDENCE_DIR=/verif/out/experiment-evidence   # never overwrite the committed evidence from a modified tree
 P=$1; T=$2; shift 2
 git -C /repo status --porcelain | grep -v '^??' | grep . && { echo "/repo not clean"; exit 2; }
 git -C /repo apply $P || exit 2
